@@ -187,7 +187,8 @@ Section SplitProofs.
   Qed.
 
   (* ---- split() with the skip flags ---------------------------------- *)
-  Variable empty_img : A -> bool.
+  Variable empty_first : A -> bool.
+  Variable empty_last : A -> bool.
 
   Lemma existsb_is_nil_false (ps : list (list A)) :
     existsb is_nil ps = false -> Forall (fun p => 0 < len p) ps.
@@ -197,48 +198,45 @@ Section SplitProofs.
     constructor; [|auto]. destruct p; [discriminate|cbn [length]; lia].
   Qed.
 
-  (* when split() succeeds the parts hold exactly the events that are not
-     skipped boundary events, in order, no part is empty or too large *)
-  Theorem split_ok (l : list A) k initial final parts :
+  (* the parts hold exactly the events that are not skipped boundary events,
+     in order; no part is too large *)
+  Theorem split_ok (l : list A) k initial final :
     0 < k ->
-    split empty_img l k initial final = Some parts ->
-    concat parts = slice l (b2z (initial && first_empty empty_img l))
-                         (len l - b2z (final && last_empty empty_img l))
-    /\ Forall (fun p => 0 < len p <= k) parts.
+    concat (split empty_first empty_last l k initial final)
+    = slice l (b2z (initial && first_empty empty_first l))
+              (len l - b2z (final && last_empty empty_last l))
+    /\ Forall (fun p => len p <= k)
+              (split empty_first empty_last l k initial final).
   Proof.
-    intros Hk. unfold split.
-    destruct (existsb is_nil _) eqn:E; [discriminate|].
-    intros [= <-]. split.
+    intros Hk. unfold split. split.
     - now apply split_parts_concat.
-    - apply existsb_is_nil_false in E.
-      pose proof (split_parts_bounded l k (initial && first_empty empty_img l)
-                    (final && last_empty empty_img l) Hk) as Hb.
-      rewrite Forall_forall in *. intros p Hp. split; auto.
+    - now apply split_parts_bounded.
   Qed.
 
   (* guard of the partial theorem: no boundary event is skipped *)
   Theorem split_total_partial (l : list A) k initial final :
     0 < k -> l <> [] ->
-    initial && first_empty empty_img l = false ->
-    final && last_empty empty_img l = false ->
-    exists parts, split empty_img l k initial final = Some parts
-                  /\ concat parts = l.
+    initial && first_empty empty_first l = false ->
+    final && last_empty empty_last l = false ->
+    has_empty_part (split empty_first empty_last l k initial final) = false
+    /\ concat (split empty_first empty_last l k initial final) = l.
   Proof.
     intros Hk Hl H0 H1. unfold split. rewrite H0, H1.
-    destruct (split_partition l k Hk) as [Hc [Hf _]].
-    destruct (existsb is_nil (split_parts l k false false)) eqn:E.
-    - apply existsb_exists in E. destruct E as [p [Hp Hnil]].
-      rewrite Forall_forall in Hf. apply Hf in Hp.
-      destruct p; [cbn [length] in Hp; lia|discriminate].
-    - eexists; split; [reflexivity|assumption].
+    destruct (split_partition l k Hk) as [Hc [Hf _]]. split; [|exact Hc].
+    unfold has_empty_part.
+    destruct (existsb is_nil (split_parts l k false false)) eqn:E; [|reflexivity].
+    apply existsb_exists in E. destruct E as [p [Hp Hnil]].
+    rewrite Forall_forall in Hf. apply Hf in Hp.
+    destruct p; [cbn [length] in Hp; lia|discriminate].
   Qed.
 End SplitProofs.
 
-(* the full statement "split always produces its parts" is false of the
-   code as it is: a part that only holds a skipped boundary event *)
+(* "no part is empty" is false of the code as it is (finding
+   C09-split-empty-part): a part that only holds a skipped boundary event is
+   written as a file without events *)
 Theorem split_total_refuted :
   exists (l : list (Z * bool)) (k : Z),
-    0 < k /\ l <> [] /\ split snd l k true true = None.
+    0 < k /\ l <> [] /\ has_empty_part (split snd snd l k true true) = true.
 Proof.
   exists [(0, true)], 1. split; [lia|]. split; [discriminate|].
   vm_compute. reflexivity.
@@ -250,12 +248,84 @@ Example split_partition_ex :
 Proof. vm_compute. reflexivity. Qed.
 
 Example split_skip_ex :
-  split snd [(0, true); (1, false); (2, false); (3, false); (4, false); (5, true)]
+  split snd snd [(0, true); (1, false); (2, false); (3, false); (4, false); (5, true)]
         2 true true
-  = Some [[(1, false)]; [(2, false); (3, false)]; [(4, false)]].
+  = [[(1, false)]; [(2, false); (3, false)]; [(4, false)]].
 Proof. vm_compute. reflexivity. Qed.
 
 Example split_total_partial_ex :
-  split snd [(0, false); (1, true); (2, false)] 2 true true
-  = Some [[(0, false); (1, true)]; [(2, false)]].
+  split snd snd [(0, false); (1, true); (2, false)] 2 true true
+  = [[(0, false); (1, true)]; [(2, false)]].
+Proof. vm_compute. reflexivity. Qed.
+
+(* ---- what "empty" means for the boundary events ---------------------------- *)
+Lemma all_zero_spec l : all_zero l = true <-> forall x, In x l -> x = 0.
+Proof.
+  unfold all_zero. rewrite forallb_forall. split; intros H x Hx.
+  - specialize (H x Hx). lia.
+  - rewrite (H x Hx). reflexivity.
+Qed.
+
+(* the first event is dropped exactly when every coordinate of its contour
+   is 0 (dataset with contour/mask) or every pixel of its image is 0 (dataset
+   with image); one non-zero pixel / coordinate keeps it *)
+Theorem sev_first_empty_spec e :
+  sev_first_empty e = true <->
+  (exists c, se_cnt e = Some c /\ forall x, In x c -> x = 0)
+  \/ (exists p, se_img e = Some p /\ forall x, In x p -> x = 0).
+Proof.
+  unfold sev_first_empty. rewrite orb_true_iff. split.
+  - intros [H|H].
+    + left. destruct (se_cnt e) as [c|]; [|discriminate].
+      exists c. split; [reflexivity|now apply all_zero_spec].
+    + right. destruct (se_img e) as [p|]; [|discriminate].
+      exists p. split; [reflexivity|now apply all_zero_spec].
+  - intros [[c [Hc H]]|[p [Hp H]]].
+    + left. rewrite Hc. now apply all_zero_spec.
+    + right. rewrite Hp. now apply all_zero_spec.
+Qed.
+
+Theorem sev_last_empty_spec e :
+  sev_last_empty e = true <->
+  exists p, se_img e = Some p /\ forall x, In x p -> x = 0.
+Proof.
+  unfold sev_last_empty. split.
+  - destruct (se_img e) as [p|]; [|discriminate]. intros H.
+    exists p. split; [reflexivity|now apply all_zero_spec].
+  - intros [p [Hp H]]. rewrite Hp. now apply all_zero_spec.
+Qed.
+
+(* a measurement whose boundary images have a non-zero pixel (and whose first
+   contour has a non-zero coordinate) is split without loss, whatever the
+   flags *)
+Theorem split_events_lossless (l : list sev) k initial final :
+  0 < k -> l <> [] ->
+  sev_first_empty (hd (mk_sev 0 None None) l) = false ->
+  sev_last_empty (last l (mk_sev 0 None None)) = false ->
+  has_empty_part (split_events l k initial final) = false
+  /\ concat (split_events l k initial final) = l.
+Proof.
+  intros Hk Hl H0 H1. unfold split_events. apply split_total_partial; auto.
+  - destruct l as [|x r]; [contradiction|]. cbn [first_empty hd] in *.
+    rewrite H0. apply andb_false_r.
+  - unfold last_empty.
+    assert (Hr : forall d, last l d = hd d (rev l)).
+    { intros d. destruct (exists_last Hl) as [l' [a ->]].
+      rewrite last_last, rev_app_distr. reflexivity. }
+    rewrite Hr in H1. destruct (rev l) as [|y r'] eqn:E.
+    + apply andb_false_r.
+    + cbn [hd] in H1. rewrite H1. apply andb_false_r.
+Qed.
+
+Example sev_partially_zero_image_kept :
+  sev_first_empty (mk_sev 0 (Some [0; 0; 7; 0]) (Some [0; 3; 0; 0])) = false
+  /\ sev_first_empty (mk_sev 0 (Some [5; 5]) (Some [0; 0; 0; 0])) = true
+  /\ sev_last_empty (mk_sev 0 (Some [5; 5]) (Some [0; 0; 0; 0])) = false
+  /\ sev_last_empty (mk_sev 0 (Some [0; 0]) None) = true.
+Proof. repeat split; reflexivity. Qed.
+
+Example split_events_ex :
+  split_events [mk_sev 0 (Some [0; 1]) None; mk_sev 1 (Some [0; 0]) None;
+                mk_sev 2 (Some [0; 0]) None] 2 true true
+  = [[mk_sev 0 (Some [0; 1]) None; mk_sev 1 (Some [0; 0]) None]; []].
 Proof. vm_compute. reflexivity. Qed.
